@@ -25,6 +25,9 @@ EMPTY_HASH = "14650fb0739d0383"      # hash of the empty string (harness/o_clone
 KNOWN_PTR = "C14-child-pointer-not-rebound"
 KNOWN_EXTRA = "C14-cloned-node-keeps-source-refs"
 KNOWN_CYCLE = "C14-cyclic-child-refs-recursion"
+KNOWN_DUP = "C14-same-model-duplicate-names-reparented"
+KNOWN_DETACHED = "C14-detached-bone-dropped"
+API_MODELS = ["@dup", "@unnamed"]      # built through the API by harness/o_clone.cpp (two nodes of one name / two unnamed nodes)
 
 
 def round_fields(rest):
@@ -212,7 +215,49 @@ def header_errors(g, skip_blocks=()):
 
 
 def sig_parts(s):
-    return dict(p.split("=", 1) for p in s.split(",") if "=" in p) if s and s != "-" else {}
+    """g=..,s=..,t=..,k=..,nv=..,nt=..,bk=h.h...,bones=hex,hex,..  (the bone list is the last part and holds commas)"""
+    if not s or s == "-":
+        return {}
+    head, sep, bones = s.partition(",bones=")
+    d = dict(p.split("=", 1) for p in head.split(",") if "=" in p)
+    if sep:
+        d["bones"] = bones
+    return d
+
+
+def child_slots(b):
+    """the childRefs window of a node block of a dump ([] for other blocks)"""
+    if b["nd"] == "-":
+        return []
+    st, ln = (int(x) for x in b["nd"].split(":")[:2])
+    return b["c"][st:st + ln]
+
+
+def parents_of(g):
+    """block index -> sorted list of the node indices that list it as a child"""
+    out = {}
+    for i, b in enumerate(g["blocks"]):
+        for r in child_slots(b):
+            if r != "x":
+                out.setdefault(int(r), []).append(i)
+    return out
+
+
+def hierarchy_errors(before, after, n0):
+    """same-model cloning: no pre-existing node changes parent, no pre-existing child slot is emptied or rewritten"""
+    e = []
+    pb, pa = parents_of(before), parents_of(after)
+    for i in range(min(n0, len(before["blocks"]), len(after["blocks"]))):
+        a, b = before["blocks"][i], after["blocks"][i]
+        sa, sb = child_slots(a), child_slots(b)
+        if sb[:len(sa)] != sa:
+            j = next((j for j, (x, y) in enumerate(zip(sa, sb)) if x != y), len(sb))
+            e.append("child slot %d of the pre-existing node %d (%s) was %s, is %s" % (j, i, a["t"], sa[j] if j < len(sa) else "-", sb[j] if j < len(sb) else "gone"))
+        elif any(x == "x" or int(x) < n0 for x in sb[len(sa):]):
+            e.append("the pre-existing node %d (%s) gained the child references %s that are not new blocks" % (i, a["t"], sb[len(sa):]))
+        if pb.get(i, []) != pa.get(i, []):
+            e.append("the pre-existing block %d (%s) changed parent: %s -> %s" % (i, a["t"], pb.get(i, []), pa.get(i, [])))
+    return e
 
 
 def run(tier, seed, replay=None):
@@ -309,10 +354,35 @@ def run(tier, seed, replay=None):
             k = ks[0]
             cases.append("clone name=%s dest=same shape=%d rounds=2 pre=ctrl" % (f, k))
             cases.append("clone name=%s dest=fresh shape=%d rounds=1 pre=ctrl" % (f, k))
+            # same-model cloning on models with two nodes of one name (added nodes / unnamed nodes / a renamed node)
+            kinds = ["dupnames", "unnamed", "collide"]
+            for kind in (kinds if tier != "quick" else [kinds[len(cases) % 3]]):
+                cases.append("clone name=%s dest=same shape=%d rounds=2 pre=%s" % (f, k, kind))
+            if tier != "quick" or len(cases) % 2:
+                cases.append("clone name=%s dest=fresh shape=%d rounds=1 pre=%s" % (f, k, kinds[len(cases) % 3]))
+            # a skin bone whose node is attached to nothing (dest fresh / another model)
+            g0 = parse_dump(infos[f].get("SRC", ""))
+            for kk in ks:
+                try:
+                    bi = int(shapes[kk].split(":")[1])
+                    b = g0["blocks"][bi]
+                    skinned = b["sk"] != "-" and b["c"][int(b["sk"])] != "x"
+                except (IndexError, ValueError, KeyError):
+                    skinned = False
+                if skinned and f not in plain_files:
+                    cases.append("clone name=%s dest=fresh shape=%d rounds=1 pre=detached" % (f, kk))
+                    if others:
+                        cases.append("clone name=%s dest=other:%s shape=%d rounds=1 pre=detached" % (f, rng.choice(others), kk))
+                    if tier == "quick":
+                        break
             if len(cyc) < (2 if tier == "quick" else 8) and f not in plain_files:
                 # a loadable file with a reference cycle below the shape (controller chain looping back)
                 cyc.append(f)
                 cases.append("clone name=%s dest=%s shape=%d rounds=1 pre=cycle" % (f, "fresh" if len(cyc) % 2 else "same", k))
+        for a in API_MODELS:
+            cases.append("clone name=%s dest=same shape=0 rounds=2" % a)
+            cases.append("clone name=%s dest=fresh shape=0 rounds=1" % a)
+        cases = list(dict.fromkeys(cases))
     impl = run_impl(cases, 20)
 
     # ---- model cases ----
@@ -357,14 +427,20 @@ def run(tier, seed, replay=None):
             # a reference cycle below the shape: the model runs out of every fuel, the C++ recursion never ends
             plans = [round_fields(rest) for tag, rest in sections(il or "") if tag == "PLAN"]
             err = crash.get("stderr", "")
-            if plans and "stack-overflow" in err and "CloneChildren" in err:
+            # recognised by the INPUT class (pre=cycle), the outcome (stack overflow / SIGSEGV, symbolised or not: ASan
+            # cannot always unwind a stack that deep) inside the CloneShape call (PLAN printed, its ROUND not), and
+            # the model running out of fuel on the very same case
+            sects = [tag for tag, rest in sections(il or "")]
+            inside_call = bool(plans) and sects.count("PLAN") == sects.count("ROUND") + 1
+            overflow = "stack-overflow" in err or "AddressSanitizer: SEGV" in err or "AddressSanitizer:DEADLYSIGNAL" in err or crash.get("rc") in (-11, 139)
+            if kv.get("pre") == "cycle" and inside_call and overflow:
                 p = plans[-1]
                 same_m = p["same"] == "1"
                 mc = "clone src=%s dst=%s compat= empty=%s nr=1 si1=%s name1=%s next1=%s same1=%s ord1=" % (
                     strip_ord(p["DSTB"] if same_m else p["SRCB"]), "same" if same_m else strip_ord(p["DSTB"]), EMPTY_HASH, p["src"], p["name"], p["next"], p["same"])
                 rc, ml, merr = vlib.run_lines(model_bin, margs, [mc], timeout=300)
                 if ml and "OUTOFFUEL" in ml[0]:
-                    rep.known_finding(KNOWN_CYCLE, "%s: AddressSanitizer stack-overflow in CloneChildren; model: %s" % (c, ml[0][:40]))
+                    rep.known_finding(KNOWN_CYCLE, "%s: stack overflow inside CloneShape (%s); model: %s" % (c, "symbolised: CloneChildren" if "CloneChildren" in err else "stack not unwound", ml[0][:40]))
                     nontriv.add(c)
                     stats["cyclic_known"] = stats.get("cyclic_known", 0) + 1
                     continue
@@ -380,6 +456,7 @@ def run(tier, seed, replay=None):
         stats["dest"][dkind] = stats["dest"].get(dkind, 0) + 1
         same0 = dkind == "same"
         errs, knowns, stale_known, stale_idx = [], [], [], set()
+        dup_errs, detached_known, tok_relax = [], [], {}
         sse = "sse=1" in d.get("VER", "")
         src0 = parse_dump(d["SRC"])
         nodes0 = d.get("NODES", " ").split(" ")
@@ -414,9 +491,41 @@ def run(tier, seed, replay=None):
             errs += ["round %d: %s" % (k + 1, e) for e in pb[:3]]
             knowns += pk
             # accessors
-            for part, what in (("s", "shader"), ("t", "textures"), ("k", "skin"), ("nv", "vertex count"), ("nt", "triangle count"), ("bones", "bone list")):
+            # the input class of C14-detached-bone-dropped: source bones whose node no node lists as a child and
+            # that the destination does not have; the clone's bone list is the source's without exactly those, and
+            # every remaining bone carries the same weights and transform at the same position
+            dropped = []
+            if kv.get("pre") == "detached" and not same and k == 0 and sg.get("bones"):
+                have_par = parents_of(srcb)
+                by_name = {}
+                for ni, nh_ in src_nodes.items():
+                    by_name.setdefault(nh_, []).append(ni)
+                sbones = sg["bones"].split(",")
+                orphan = [bn for bn in sbones if bn in by_name and not have_par.get(by_name[bn][0])]
+                dropped = [bn for bn in orphan if bn not in set(dst_nodes.values())]
+                kept = [bn for bn in sbones if bn not in dropped]
+                sbk, cbk = sg.get("bk", "").split("."), cg.get("bk", "").split(".")
+                kept_bk = [h for bn, h in zip(sbones, sbk) if bn not in dropped]
+                if not dropped or (cg.get("bones", "").split(",") if cg.get("bones") else []) != kept or cbk != (kept_bk if kept_bk else [""]):
+                    dropped = []            # not exactly that class: everything below is judged as usual
+            for part, what in (("s", "shader"), ("t", "textures"), ("k", "skin"), ("nv", "vertex count"), ("nt", "triangle count"), ("bk", "per-bone skin data"), ("bones", "bone list")):
                 if sg.get(part) != cg.get(part):
+                    if dropped and part in ("k", "bk", "bones"):
+                        continue
                     errs.append("round %d: %s of the clone differs from the source shape's (%s vs %s)" % (k + 1, what, cg.get(part), sg.get(part)))
+            if dropped:
+                # the bone count is part of the payload token of the bone container: its clone's token differs
+                try:
+                    sc = int(srcb["blocks"][si]["c"][int(srcb["blocks"][si]["sk"])])
+                    dc = int(dsta["blocks"][di]["c"][int(dsta["blocks"][di]["sk"])])
+                    msg = "round %d: payload of clone %d differs from source block %d (%s)" % (k + 1, dc, sc, srcb["blocks"][sc]["t"])
+                    if pairs.get(sc) == [dc] and msg in errs:
+                        errs.remove(msg)
+                    tok_relax.setdefault(k, set()).add(dc)
+                except (ValueError, IndexError, KeyError):
+                    pass
+                detached_known.append("round %d: bone(s) %s attached to no node in the source are missing from the clone's bone list and from the destination" % (
+                    k + 1, ",".join("'%s'" % bytes.fromhex(bn).decode("latin1") for bn in dropped)))
             if sg.get("g") != cg.get("g") and not sse:
                 errs.append("round %d: geometry of the clone differs from the source shape's" % (k + 1))
             if r.get("sigsrc2") != r.get("sigsrc"):
@@ -425,14 +534,18 @@ def run(tier, seed, replay=None):
                 stats["skinned"] += 1
                 have = set(dst_nodes.values())
                 for bn in sg["bones"].split(","):
-                    if bn not in have:
+                    if bn not in have and bn not in dropped:
                         errs.append("round %d: bone '%s' does not exist in the destination" % (k + 1, bytes.fromhex(bn).decode("latin1")))
             # source untouched
             if not same:
                 if r["SRCA"] != r["SRCB"]:
                     errs.append("round %d: cloning into another model changed the source model" % (k + 1))
             else:
-                # same model: every pre-existing block is unchanged except nodes that gained child references
+                # same model: no pre-existing node changes parent, no pre-existing child slot is emptied or rewritten
+                # (the defect C14-same-model-duplicate-names-reparented, repaired)
+                he_ = hierarchy_errors(srcb, srca, n0)
+                dup_errs += ["round %d: %s" % (k + 1, e) for e in he_[:3]]
+                # and every pre-existing block is unchanged except nodes that gained child references
                 for i in range(n0):
                     a, b = srcb["blocks"][i], srca["blocks"][i]
                     if a == b:
@@ -441,6 +554,8 @@ def run(tier, seed, replay=None):
                     for key in ("c", "nd", "ord", "tok"):       # the child count is part of the payload token
                         a2.pop(key), b2.pop(key)
                     grew = [x for x in b["c"] if x not in a["c"]]
+                    if he_:
+                        continue        # reported above, by name
                     if a2 != b2 or a["nd"] == "-" or any(int(x) < n0 for x in grew if x != "x") or [x for x in b["c"] if x in a["c"] or x == "x"] != a["c"]:
                         errs.append("round %d: cloning inside the model changed pre-existing block %d (%s)" % (k + 1, i, a["t"]))
             stale = stale_node_refs(dsta, n0, {x for v in pairs.values() for x in v}, stale_idx) if not same else []
@@ -476,6 +591,14 @@ def run(tier, seed, replay=None):
         for kf in stale_known:
             stats["stale_node_refs_known"] = stats.get("stale_node_refs_known", 0) + 1
             known_or_violation(rep, KNOWN_EXTRA, "%s: %s" % (c, kf), {"case": c, "family": FAMILY, "errors": stale_known[:4]})
+        for kf in detached_known:
+            stats["detached_bone_known"] = stats.get("detached_bone_known", 0) + 1
+            known_or_violation(rep, KNOWN_DETACHED, "%s: %s" % (c, kf), {"case": c, "family": FAMILY, "errors": detached_known[:4]})
+        if dup_errs:
+            # status "fixed": the defect coming back is a violation
+            known_or_violation(rep, KNOWN_DUP, "%s: %s" % (c, dup_errs[0]), {"case": c, "family": FAMILY, "errors": dup_errs[:8]})
+        if kv.get("pre") in ("dupnames", "unnamed", "collide", "detached") or kv.get("name", "").startswith("@"):
+            stats[kv.get("pre") or "api_models"] = stats.get(kv.get("pre") or "api_models", 0) + 1
         if errs:
             rep.violation("cloned shape is not a self-contained equal copy / source touched: " + errs[0], {"case": c, "family": FAMILY, "errors": errs[:8]})
         # -- correspondence
@@ -503,7 +626,8 @@ def run(tier, seed, replay=None):
                         if x != y:
                             keys = [kk for kk in x if x[kk] != y.get(kk)]
                             # payload of the clone root (normals stripped) and of re-parented nodes (transform) is not modelled
-                            if keys == ["tok"] and (i == di or x["nd"] != "-"):
+                            # (nor the bone count inside the token of the bone container in the recorded class C14-detached-bone-dropped)
+                            if keys == ["tok"] and (i == di or x["nd"] != "-" or i in tok_relax.get(k, ())):
                                 continue
                             diffs.append("block %d (%s) fields %s impl %s model %s" % (i, x["t"], keys, [x[kk] for kk in keys][:3], [y.get(kk) for kk in keys][:3]))
                     if len(ga["blocks"]) != len(gb["blocks"]):
@@ -520,16 +644,18 @@ def run(tier, seed, replay=None):
     cov.update({
         "evaluations": len(cases),
         "distinct_nontrivial": len(nontriv),
-        "rule": "every sample with shapes x shapes (quick: 2 per sample) x destination {same model, fresh Create(version), other loaded samples of the same version, a second instance of the same file} x 1-3 rounds (the clone of the clone); non-trivial = CloneShape ran and produced dumps; distinct = distinct case lines",
+        "rule": "every sample with shapes x shapes (quick: 2 per sample) x destination {same model, fresh Create(version), other loaded samples of the same version, a second instance of the same file} x 1-3 rounds (the clone of the clone); plus per sample: a controller pointing back at the shape, a controller chain looping back, same-model cloning with two nodes of one name (added nodes / two unnamed nodes / an existing node renamed to collide; also two API-built models), a skinned shape whose last bone is attached to nothing (dest fresh / other); non-trivial = CloneShape ran and produced dumps; distinct = distinct case lines",
         "samples": cases[:3] + cases[len(cases) // 2:len(cases) // 2 + 2] + cases[-2:],
         "input_distribution": stats,
         "traces_validated_against_impl": len(mcases),
         "correspondence_mismatches": len(mism),
         "unproved": ["payload edits inside CloneShape (SetNormals/SetTangents(false) for model-space shaders, SetNodeTransformToParent of re-parented nodes) are not modelled: the clone root's payload token is compared on the implementation only",
-                     "the cloneNodes hierarchy logic of CloneShape is modelled and correspondence-checked, proved only for the rebuilt bone list (names)"],
+                     "cloneNodes hierarchy of CloneShape, source = another model: proved for all inputs as a run of steps over the pre-order listing of the source's node tree (C14_hier_*: visited names found, created exactly once, parent of a created node, existing blocks kept, parents of nodes with non-visited names kept, references closed, no pointers in created nodes, totality on finite depth). Not proved for all inputs: the accessor-level equality GetShapeBoneList(clone) = GetShapeBoneList(source) (proved: the list the container is rebuilt from names the same bones, all nodes of the destination, when every source bone is below the source root; the equality itself is shown on the instance of C14_hier_hypotheses_satisfiable and evaluated on the implementation); false when a bone is not below the source root (C14_unreachable_bone_dropped_refuted = known finding C14-detached-bone-dropped, generated case class pre=detached); 'existing nodes are never re-parented' is false by the C++'s own intent (C14_existing_node_reparented_refuted)"],
         "trusted_base": vlib.BASE_TRUSTED + ["modelled, not verified: std::set<NiRef*> enumeration order (address order) is an input of the model, measured on the implementation after the fact",
                                               "per-block payload as an opaque token (hash of Put bytes of a clone of the block, references and string indices masked)"],
         "exhaustive": False,
     })
     return rep.finish(cov, ["clone_children_closed / source_unchanged assume a source whose child references are empty or in range, an enumeration that visits every reference exactly once, fresh identities, and (same-model cloning) a clone root appended after every source block",
-                            "termination is proved for sources whose child-reference relation below the cloned block has finite depth (acyclic); for cyclic child references the model runs out of any fuel (C14_cyclic_source_refuted)"])
+                            "termination is proved for sources whose child-reference relation below the cloned block has finite depth (acyclic); for cyclic child references the model runs out of any fuel (C14_cyclic_source_refuted)",
+                            "C14_hier_same_model_kept (cloning inside one model, no walk since b13cd10) assumes only a well-formed destination (HWF) and holds for all models, duplicate node names included",
+                            "hierarchy theorems (C14_hier_*) assume a well-formed destination (HWF: counters agree, no object in two slots, every node's childRefs window inside its reference list), the same windows in the source (SrcWinB), a destination root that is a node, and speak about runs that return; C14_hier_created_parent additionally assumes the node's name absent before and visited once and no node named like its source parent visited at or after it (true of a tree with pairwise different names); C14_hier_walk_total assumes every source node named and a source node tree of depth <= fuel"])
